@@ -456,32 +456,7 @@ func c01(r *Report) {
 
 	r.Guard("C01.R5", "the configured timeout is the one the deadline is armed with", func() {
 		setterStoresRule(r, "", "Proxy", "SetTimeout", "timeout", "the connection deadline is armed with the default whatever the user configures")
-		// a deadline is armed on the client connection by the connection loop and nowhere
-		// else in the core (connect's own arm/disarm pair is C04.R3): a deadline left on a
-		// dialled connection outlives the exchange, because the transport pools it
-		for _, f := range w.Funcs("") {
-			for _, c := range calls(f) {
-				cc := c.Common()
-				name := ""
-				if cc.IsInvoke() {
-					name = cc.Method.Name()
-				} else if sc := cc.StaticCallee(); sc != nil {
-					name = sc.Name()
-				}
-				if name != "SetDeadline" && name != "SetReadDeadline" && name != "SetWriteDeadline" {
-					continue
-				}
-				if fnName(f) == "(*M.Proxy).connect" {
-					continue
-				}
-				recv := cc.Value
-				if !cc.IsInvoke() && len(cc.Args) > 0 {
-					recv = cc.Args[0]
-				}
-				okSite := f == loop && len(loop.Params) > 1 && isParamVal(recv, loop.Params[1])
-				r.Decide("callgraph", "deadline armed at "+site(f, c), okSite, "the connection loop, on the client connection", "a deadline is armed on a connection outside the connection loop ("+fnName(f)+"): on an upstream connection it stays armed while the transport reuses the connection, and a later exchange fails when it expires", c.Pos())
-			}
-		}
+		deadlineSitesRule(r, loop)
 		// the default transport carries no limit that turns a legitimate origin response
 		// into a 502
 		deny := map[string]string{
@@ -694,6 +669,9 @@ func c01(r *Report) {
 	})
 
 	r.Guard("C01.R5", "exchanges on one connection are served sequentially", func() {
+		if rd := r.Use("", "Proxy.readRequest"); rd != nil {
+			readFromConnReaderRule(r, rd)
+		}
 		// every exchange runs under a freshly armed deadline: no path from the top of the
 		// connection loop to the exchange avoids conn.SetDeadline (requests already in the
 		// read buffer still need the time to write their responses)
@@ -810,4 +788,36 @@ func requestBodyClosedOnlyByDefer(r *Report, handle *ssa.Function) {
 		}
 	}
 	r.Decide("path", "(*M.Proxy).handle: the request body is closed by the deferred close only", n == 0, "no plain Close of req.Body in the exchange function", "see the individual constructs")
+}
+
+// deadlineSitesRule: a deadline is armed on the client connection by the
+// connection loop and nowhere else in the core (connect's own arm/disarm pair
+// is C04.R3): a deadline left on a dialled connection outlives the exchange,
+// because the transport pools it, and a deadline armed on a tunnel end cuts
+// the direction that is still flowing. Shared by C01.R5 and C04.R5.
+func deadlineSitesRule(r *Report, loop *ssa.Function) {
+	w := r.W
+	for _, f := range w.Funcs("") {
+		for _, c := range calls(f) {
+			cc := c.Common()
+			name := ""
+			if cc.IsInvoke() {
+				name = cc.Method.Name()
+			} else if sc := cc.StaticCallee(); sc != nil {
+				name = sc.Name()
+			}
+			if name != "SetDeadline" && name != "SetReadDeadline" && name != "SetWriteDeadline" {
+				continue
+			}
+			if fnName(f) == "(*M.Proxy).connect" {
+				continue
+			}
+			recv := cc.Value
+			if !cc.IsInvoke() && len(cc.Args) > 0 {
+				recv = cc.Args[0]
+			}
+			okSite := f == loop && len(loop.Params) > 1 && isParamVal(recv, loop.Params[1])
+			r.Decide("callgraph", "deadline armed at "+site(f, c), okSite, "the connection loop, on the client connection", "a deadline is armed on a connection outside the connection loop ("+fnName(f)+"): on an upstream connection it stays armed while the transport reuses the connection, and a later exchange fails when it expires", c.Pos())
+		}
+	}
 }
